@@ -229,6 +229,47 @@ def exprnum_doc(c):
     return ("<svg>" + body + "</svg>").encode("utf-8")
 
 
+VALUE = {"empty": "", "space": " ", "word": "abc", "unit": "1em 2em", "mixed": "1.5 up", "comma-only": ",", "many": "1 2 3 4 5 6 7",
+         "open-paren": "(1", "neg": "-1 -2", "pct": "50% 20%", "elref": "#r", "elref-missing": "#zz", "elref-loc": "#r@tl:10% 1 2", "elref-dangling": "#r@t:",
+         "nan": "NaN", "inf": "inf -inf", "huge": "1e39 -1e39", "tiny": "1e-46", "expr": "{{1 + 1}}", "expr-list": "{{1, 2, 3}}", "nonascii": "é 日本",
+         "loc": "@br", "dir": "#r|h", "sci": "1e1,2E-1", "plus": "+3 +.5", "dot": ". .", "semicolon": "a: b; ;; c"}
+HOSTS = {"rect": ('rect', {"xy": "1 1", "wh": "4", "text": "t"}, None),
+         "rect-content": ('rect', {"xy": "1 1", "wh": "4"}, "two\nlines"),
+         "g": ('g', {}, '<rect wh="2" text="t"/>'),
+         "text": ('text', {"xy": "1 1", "text": "a\nb"}, None),
+         "line": ('line', {"xy1": "0 0", "xy2": "5 5", "text": "t"}, None),
+         "connector": ('line', {"start": "#r", "end": "#q", "text": "t"}, None),
+         "polyline-connector": ('polyline', {"start": "#r@b", "end": "#q@l", "text": "t"}, None),
+         "circle": ('circle', {"cxy": "3 3", "r": "2"}, "txt"),
+         "use": ('use', {"href": "#r"}, None),
+         "reuse": ('reuse', {"href": "#r"}, None),
+         "path": ('path', {"d": "M0 0 h5 v5 z", "text": "t"}, None),
+         "root": None}
+
+
+def attrlex_doc(c):
+    """one element of kind `host` carrying attribute `attr` with a value of class `cls`; the
+    element after it is placed relative to it, so its box is asked for"""
+    attr, v = c["attr"], VALUE[c["cls"]]
+    if attr.startswith("transform:"):
+        f = attr.split(":")[1]
+        name = "transform"
+        v = v if f == "raw" else (f"{f}{v}" if c["cls"] == "open-paren" else f"{f}({v})")
+    else:
+        name = attr
+    v = v.replace("&", "&amp;").replace("<", "&lt;").replace('"', "&quot;")
+    pre = '<rect id="r" wh="4"/><rect id="q" xy="9 9" wh="2"/><clipPath id="cp"><rect wh="3"/></clipPath>'
+    post = '<rect xy="^|h 1" wh="^ 50%"/><line start="^" end="#r"/>'
+    if c["host"] == "root":
+        return f'<svg {name}="{v}">{pre}<rect wh="2" text="t"/>{post}</svg>'.encode("utf-8")
+    el, base, content = HOSTS[c["host"]]
+    a = dict(base)
+    a[name] = v
+    at = " ".join(f'{k}="{x}"' for k, x in a.items())
+    body = f"<{el} {at}>{content}</{el}>" if content is not None else f"<{el} {at}/>"
+    return ("<svg>" + pre + body + post + "</svg>").encode("utf-8")
+
+
 # --------------------------------------------------------------------------
 # scanner inputs from token classes
 # --------------------------------------------------------------------------
